@@ -23,7 +23,7 @@ from harness.common import rat, rat_list, Fraction, parse_rat_list, dyadic, Mach
 
 TOL = 1e-9
 
-INPUT_KINDS = ['field', 'wavefront', 'plain', 'intfield', 'boolfield', 'list', 'foreignfield']
+INPUT_KINDS = ['field', 'wavefront', 'plain', 'intfield', 'boolfield', 'list', 'foreignfield', 'f32field']
 BAD_VARIANTS = ['plain', 'list', 'field', 'scalar']
 
 
@@ -49,6 +49,13 @@ def gen_case(rng, big):
         s = case['s'] = 1
         nin = npix
         case['axes'] = [np.cumsum([0.0] + [float(rng.choice([0.25, 0.5, 1.0, 1.5])) for _ in range(d - 1)]).tolist() for d in dims]
+    if 'axes' not in case and rng.random() < 0.2:
+        # one subsampling factor per axis (D181), in one of the spellings the docstring allows
+        ss = [int(rng.integers(1, 4)) for _ in range(ndim)] if ndim < 3 else [int(rng.integers(1, 3)) for _ in range(3)]
+        case['ss'] = ss
+        case['spell'] = str(rng.choice(['array', 'array', 'list', 'float-array']))
+        case['s'] = s = max(ss)
+        nin = int(np.prod([d * f for d, f in zip(dims, ss)]))
     if kind == 'noisy-det':
         case['dark'] = dyadic(rng, 0, 4, 3)
         case['flat'] = [dyadic(rng, 0.5, 1.5, 4) for _ in range(npix)]
@@ -57,6 +64,7 @@ def gen_case(rng, big):
     ops = []
     nints = 0
     nimgs = 0
+    seen32 = False
     for _ in range(nops):
         u = rng.random()
         if style == 'reads':
@@ -76,7 +84,7 @@ def gen_case(rng, big):
             if rng.random() < 0.07:
                 ops.append(gen_bad(rng, npix, nin))
                 continue
-            ik = str(rng.choice(INPUT_KINDS, p=[0.32, 0.24, 0.14, 0.1, 0.05, 0.1, 0.05]))
+            ik = str(rng.choice(INPUT_KINDS, p=[0.27, 0.24, 0.14, 0.1, 0.05, 0.1, 0.05, 0.05]))
             if ik == 'wavefront':
                 data = [[dyadic(rng, -2, 2, 3) for _ in range(nin)], [dyadic(rng, -2, 2, 3) for _ in range(nin)]]
             elif ik == 'intfield':
@@ -92,6 +100,14 @@ def gen_case(rng, big):
             # integer dt / weight are passed as Python ints half of the time (the dtype of the
             # accumulator then depends on the first power array)
             asint = bool(rng.random() < 0.5)
+            if ik == 'f32field':
+                # a single-precision power array (exactly representable values, power-of-two dt and weight: the exposure is
+                # exact in float32 too); what follows in the life of the detector must not inherit the precision
+                data = [float(rng.integers(0, 64)) / 4 for _ in range(nin)]
+                dt, w = float(rng.choice([0.5, 1.0, 2.0])), float(rng.choice([1.0, 0.5, 2.0]))
+                seen32 = True
+            elif ik in ('field', 'plain') and seen32:
+                data = [x + float(rng.integers(1, 8)) * 2.0 ** -27 for x in data]     # needs more than single precision
             which = 'call' if (style == 'calls' and rng.random() < 0.6) or rng.random() < 0.08 else 'int'
             ops.append([which, ik, data, dt, w, asint])
             nints += 1
@@ -191,6 +207,24 @@ def add_setters(rng, case, npix):
     case['ops'] = new
 
 
+def factors(case):
+    """the subsampling factors per axis, (x, y, ..) order"""
+    return list(case['ss']) if 'ss' in case else [case['s']] * len(case['dims'])
+
+
+def sub_arg(case):
+    """the `subsampling` argument the detector is constructed with"""
+    if 'ss' not in case:
+        return case['s']
+    ss = case['ss']
+    return {'array': lambda: np.array(ss), 'list': lambda: list(ss), 'float-array': lambda: np.array(ss, dtype=float)}[case.get('spell', 'array')]()
+
+
+def model_sub(case):
+    """the factor(s) as the driver wants them: one number, or the per-axis list slowest axis first"""
+    return ('[' + ','.join(str(f) for f in case['ss'][::-1]) + ']') if 'ss' in case else str(case['s'])
+
+
 def D(kind, dims, s, ops, delta=None, **kw):
     c = {'dims': dims, 'delta': delta or [1.0] * len(dims), 's': s, 'kind': kind, 'ops': ops, 'style': 'directed'}
     c.update(kw)
@@ -202,6 +236,17 @@ def _ones(n, v=1.0):
 
 
 DIRECTED = [
+    # exposures of different dtype in the life of one detector: single precision first, then double precision that needs it
+    D('noiseless', [2, 2], 1, [['int', 'f32field', [1.0, 2.25, 3.5, 4.0], 1.0, 1.0, False], ['read'],
+                               ['int', 'field', [1.0 + 2.0 ** -26, 2.0, 3.0 + 2.0 ** -25, 4.0 + 2.0 ** -40], 1.0, 1.0, False], ['read'], ['read']]),
+    D('noisy-off', [2, 1], 2, [['int', 'f32field', [float(i) / 4 for i in range(8)], 0.5, 2.0, False], ['read'],
+                               ['int', 'field', [1.0 + 2.0 ** -26] * 8, 1.0, 1.0, False], ['read']]),
+    # one subsampling factor per axis: full histories (several integrations, empty read-outs, scribbles) on both detector classes
+    D('noiseless', [2, 1], 3, [['int', 'field', [float(i) for i in range(12)], 0.5, 2.0, False], ['int', 'plain', [1.0] * 12, 1.0, 1.0, False], ['read'], ['read'],
+                               ['scribble', 0, 7.0], ['call', 'field', [float(i % 5) for i in range(12)], 2.0, 1.0, False]], ss=[2, 3], spell='array'),
+    D('noisy-off', [1, 2], 3, [['int', 'field', [float(i) for i in range(12)], 1.0, 1.0, True], ['read'], ['read']], ss=[3, 2], spell='list'),
+    D('noisy-det', [2, 2], 2, [['int', 'field', [float(i) for i in range(8)], 0.5, 1.0, False], ['read'], ['read']],
+      dark=1.5, flat=[1.0, 0.5, 1.25, 1.0], ss=[1, 2], spell='float-array'),
     # detector grids with non-regular separated coordinates (subsampling 1)
     D('noisy-off', [3, 2], 1, [['int', 'field', [1.0, 2, 3, 4, 5, 6], 0.5, 2.0, False], ['int', 'plain', [1.0, 0, 1, 0, 1, 0], 1.0, 1.0, False], ['read'], ['read']],
       axes=[[0.0, 0.5, 2.0], [0.0, 1.5]]),
@@ -262,7 +307,7 @@ def make_detector(case):
     grid = hcipy.make_uniform_grid(dims, extent)
     if 'axes' in case:
         grid = hcipy.CartesianGrid(hcipy.SeparatedCoords([np.array(a, dtype=float) for a in case['axes']]))
-    s = case['s']
+    s = sub_arg(case)
     if case['kind'] == 'noiseless':
         det = hcipy.NoiselessDetector(grid, s)
     elif case['kind'] == 'noisy-off':
@@ -308,6 +353,9 @@ def make_input(det, ik, data):
         return a, a, np.array(data, dtype=float)
     if ik == 'boolfield':
         a = hcipy.Field(np.array(data, dtype=bool), g)
+        return a, a, np.array(data, dtype=float)
+    if ik == 'f32field':
+        a = hcipy.Field(np.array(data, dtype=np.float32), g)
         return a, a, np.array(data, dtype=float)
     if ik == 'foreignfield':
         # the right number of samples, on a grid object that is not (and does not equal) the input grid
@@ -368,10 +416,10 @@ def run_real(case):
     model = ['C17 reset']
     kind = {'noiseless': 'noiseless', 'noisy-off': 'noisy', 'noisy-det': 'noisy', 'noisy-set': 'noisy'}[case['kind']]
     if kind == 'noisy':
-        model.append('C17 new noisy %d %s %s %s' % (s, '[' + ','.join(str(d) for d in dims[::-1]) + ']', rat(case.get('dark', 0.0)),
+        model.append('C17 new noisy %s %s %s %s' % (model_sub(case), '[' + ','.join(str(d) for d in dims[::-1]) + ']', rat(case.get('dark', 0.0)),
                                                    rat_list(case['flat']) if 'flat' in case else '-'))
     else:
-        model.append('C17 new noiseless %d %s' % (s, '[' + ','.join(str(d) for d in dims[::-1]) + ']'))
+        model.append('C17 new noiseless %s %s' % (model_sub(case), '[' + ','.join(str(d) for d in dims[::-1]) + ']'))
 
     def note_param(prm, spec, o):
         """book-keeping (and model line) for a parameter that has just been given to the detector"""
@@ -517,7 +565,7 @@ def run_real(case):
         inputs.append((buf, snap))
         ikinds_state['l'].append(ik)
         pf = [fr(x) for x in power]
-        b = brute_bin(pf, dims, s)
+        b = brute_bins(pf, dims, factors(case)) if 'ss' in case else brute_bin(pf, dims, s)
         f = fr(dt) * fr(w)
         expected = [a + x * f + d * f for a, x, d in zip(expected, b, cfg['dark'])]
         if any(d != 0 for d in cfg['dark']):
@@ -549,7 +597,7 @@ def run_real(case):
                 rline(o, 'C17 ralloc %s' % rat_list(o['power']), 'ok')
                 rline(o, 'C17 rint %d %s %s' % (len(handles), rat(dt), rat(w)), 'ok')
                 inp_handle.append(len(handles))
-                handles.append(inputs[-1][0] if ik in ('field', 'plain', 'foreignfield', 'intfield', 'boolfield') else None)
+                handles.append(inputs[-1][0] if ik in ('field', 'plain', 'foreignfield', 'intfield', 'boolfield', 'f32field') else None)
             if op[0] == 'call' and not o['bad']:
                 model.append('C17 read')
                 o['model_idx'] = len(model) - 1
@@ -623,6 +671,10 @@ def run_real(case):
         obs.append(o)
         if o['bad']:
             break
+    # the images of the whole history at once (`images` of the observation list; noisy kinds also `reads … (strip history)`)
+    model.append('C17 imgs')
+    if kind == 'noisy':
+        model.append('C17 twin')
     return obs, model
 
 
@@ -752,6 +804,370 @@ def run_per_axis(case):
     return bad, lines, cmps
 
 
+# ---------------------------------------------------------------------------------------------
+# noise sources ON, with a recording stand-in for `np.random` (family `rng`)
+#
+# NoisyDetector draws from the legacy global generator (`np.random.normal`, `np.random.poisson` inside `large_poisson`).
+# For the duration of every call into the detector these two functions are replaced by a stand-in that records its
+# arguments and returns `loc + scale*z` / `lam + d` for dyadic `z`, `d` drawn from a generator seeded by the case.  That
+# makes the whole pipeline (dark current -> photon noise -> flat field -> read noise -> reset) a deterministic function:
+# the oracle recomputes it in Fractions and also checks *what the real code asked the generator for* (order of the
+# calls, the expectation handed to the Poisson stage, loc/scale/size of the normal draws); the Lean model
+# (`pReadOutRng`, op `readrng`) recomputes image and Poisson expectation.  A second pass re-runs the history with the
+# real generator seeded twice: same seed => bit-identical images.
+
+class FakeRandom:
+    def __init__(self, seed):
+        self.rng = np.random.default_rng(seed)
+        self.calls = []
+
+    def _draw(self, n, lo, hi, bits):
+        return np.array([dyadic(self.rng, lo, hi, bits) for _ in range(n)], dtype=float)
+
+    def normal(self, loc=0.0, scale=1.0, size=None):
+        n = int(np.prod(size)) if size is not None else int(np.size(np.broadcast_arrays(loc, scale)[0]))
+        z = self._draw(n, -2, 2, 2)
+        if n:
+            self.calls.append({'fn': 'normal', 'loc': np.array(loc, dtype=float).ravel().tolist(), 'scale': np.array(scale, dtype=float).ravel().tolist(),
+                               'size': None if size is None else int(np.prod(size)), 'z': z.tolist()})
+        return np.asarray(loc, dtype=float) + np.asarray(scale, dtype=float) * z
+
+    def poisson(self, lam=1.0, size=None):
+        lam = np.array(lam, dtype=float)
+        d = np.array([float(self.rng.integers(-2, 4)) for _ in range(lam.size)])
+        if lam.size:
+            self.calls.append({'fn': 'poisson', 'lam': lam.ravel().tolist(), 'size': None if size is None else int(np.prod(size)), 'd': d.tolist()})
+        return lam + d.reshape(lam.shape)
+
+
+class patched_random:
+    """`with patched_random(fake):` — np.random.normal / poisson are the stand-in's inside the block"""
+    def __init__(self, fake):
+        self.fake = fake
+
+    def __enter__(self):
+        self.saved = (np.random.normal, np.random.poisson)
+        np.random.normal, np.random.poisson = self.fake.normal, self.fake.poisson
+        return self.fake
+
+    def __exit__(self, *a):
+        np.random.normal, np.random.poisson = self.saved
+        return False
+
+
+def gen_rng_case(rng, big):
+    ndim = 1 if rng.random() < 0.2 else 2
+    dims = [int(rng.integers(1, 4 if not big else 5)) for _ in range(ndim)]
+    case = {'fam': 'rng', 'dims': dims, 'delta': [float(rng.choice([0.5, 1.0, 2.0])) for _ in range(ndim)], 'zseed': int(rng.integers(0, 2 ** 31))}
+    if rng.random() < 0.4:
+        case['ss'] = [int(rng.integers(1, 4)) for _ in range(ndim)]
+        case['spell'] = str(rng.choice(['array', 'list']))
+        case['s'] = max(case['ss'])
+    else:
+        case['s'] = int(rng.choice([1, 1, 2, 3]))
+    npix = int(np.prod(dims))
+    nin = int(np.prod([d * f for d, f in zip(dims, factors(case))]))
+    case['ctor'] = {prm: gen_param(rng, prm, npix, off=bool(rng.random() < 0.3)) for prm in PARAMS}
+    ops = []
+    for _ in range(int(rng.integers(1, 8 if not big else 14))):
+        u = rng.random()
+        if u < 0.35:
+            ops.append(['read'])
+        elif u < 0.5:
+            prm = PARAMS[int(rng.integers(0, 4))]
+            ops.append(['set', prm, gen_param(rng, prm, npix, off=bool(rng.random() < 0.3))])
+        else:
+            data = [dyadic(rng, 0, 16, 3) for _ in range(nin)]
+            ops.append(['call' if rng.random() < 0.15 else 'int', 'plain' if rng.random() < 0.2 else 'field', data,
+                        float(rng.choice([dyadic(rng, 0, 4, 3), 1.0, 2.0])), float(rng.choice([1.0, dyadic(rng, 0, 2, 3), 2.0])), False])
+    ops.append(['read'])
+    if rng.random() < 0.5:
+        ops.append(['read'])
+    case['ops'] = ops
+    return case
+
+
+def run_rng_case(case):
+    """returns (bad, model lines, checks) — checks = [(index into the model lines, image, lam or None)]"""
+    import hcipy
+    bad, lines, checks = [], ['C17 reset'], []
+    dims = case['dims']
+    npix = int(np.prod(dims))
+    fake = FakeRandom(case['zseed'])
+    grid = hcipy.make_uniform_grid(dims, [d * n for d, n in zip(case['delta'], dims)])
+    st = {'dark': None, 'sigma': None, 'flat': None, 'photon': None}
+
+    def calls_since(k):
+        return fake.calls[k:]
+
+    def note(prm, spec, k0):
+        """oracle + book-keeping for a parameter given to the detector; the only draw allowed is the flat-field map"""
+        cs = calls_since(k0)
+        if prm == 'flat_field' and spec[0] == 'scalar':
+            if len(cs) != 1 or cs[0]['fn'] != 'normal' or cs[0]['loc'] != [1.0] or cs[0]['scale'] != [float(spec[1])] or cs[0]['size'] != npix:
+                bad.append(('flat-field-map-draw', 'flat_field = %r (a standard deviation) must draw one normal(1, %r, %d) map; the generator was asked for %r'
+                            % (spec[1], spec[1], npix, [(c['fn'], c.get('loc'), c.get('scale'), c.get('size')) for c in cs])))
+                return
+            want = [Fraction(1) + fr(spec[1]) * fr(z) for z in cs[0]['z']]
+            m = np.asarray(det.flat_field, dtype=float).ravel()
+            if m.shape != (npix,) or any(fr(a) != b for a, b in zip(m, want)):
+                bad.append(('flat-field-map-draw', 'flat_field = %r: the map in force is not 1 + %r*z for the deviates z that were drawn' % (spec[1], spec[1])))
+                return
+            st['flat'] = want
+        elif cs:
+            bad.append(('rng-consumed-by-setter', '%s = <%s> consumed random numbers: %r' % (prm, spec[0], [c['fn'] for c in cs])))
+            return
+        elif prm == 'flat_field':
+            st['flat'] = [fr(x) for x in spec[1]]
+        elif prm == 'include_photon_noise':
+            st['photon'] = bool(spec[1])
+        else:
+            vals = [fr(spec[1])] * npix if spec[0] == 'scalar' else [fr(x) for x in spec[1]]
+            st['dark' if prm == 'dark_current_rate' else 'sigma'] = vals
+        if prm == 'include_photon_noise':
+            lines.append('C17 set photon %d' % (1 if spec[1] else 0))
+        else:
+            lines.append('C17 set %s %s' % ({'flat_field': 'flat', 'dark_current_rate': 'dark', 'read_noise': 'sigma'}[prm],
+                                            '[' + ','.join(rat(v) for v in st[{'flat_field': 'flat', 'dark_current_rate': 'dark', 'read_noise': 'sigma'}[prm]]) + ']'))
+
+    c = case['ctor']
+    try:
+        with patched_random(fake):
+            det = hcipy.NoisyDetector(grid, dark_current_rate=param_value(c['dark_current_rate'], grid), read_noise=param_value(c['read_noise'], grid),
+                                      flat_field=param_value(c['flat_field'], grid), include_photon_noise=param_value(c['include_photon_noise'], grid),
+                                      subsampling=sub_arg(case))
+    except Exception as e:  # noqa
+        return [('constructor-raises', 'constructing the NoisyDetector raised %s: %s' % (type(e).__name__, str(e)[:100]))], lines, checks
+    lines.append('C17 new noisy %s %s 0 -' % (model_sub(case), '[' + ','.join(str(d) for d in dims[::-1]) + ']'))
+    k0 = 0
+    for prm in ('dark_current_rate', 'read_noise', 'flat_field', 'include_photon_noise'):      # the order of the assignments in __init__
+        note(prm, c[prm], k0 if prm == 'flat_field' else len(fake.calls))
+        if bad:
+            return bad, lines, checks
+    charge = [Fraction(0)] * npix
+    for op in case['ops']:
+        k0 = len(fake.calls)
+        if op[0] == 'set':
+            try:
+                with patched_random(fake):
+                    setattr(det, op[1], param_value(op[2], grid))
+            except Exception as e:  # noqa
+                bad.append(('setter-raises', '%s = <%s> raised %s: %s' % (op[1], op[2][0], type(e).__name__, str(e)[:100])))
+                break
+            note(op[1], op[2], k0)
+        if op[0] in ('int', 'call'):
+            _, ik, data, dt, w, _ = op
+            a = np.array(data, dtype=float)
+            try:
+                with patched_random(fake):
+                    det.integrate(hcipy.Field(a, det.input_grid) if ik == 'field' else a, dt, w)
+            except Exception as e:  # noqa
+                bad.append(('integrate-raises', 'integrate raised %s: %s' % (type(e).__name__, str(e)[:100])))
+                break
+            if calls_since(k0):
+                bad.append(('rng-consumed-by-integrate', 'integrate() consumed random numbers: %r' % [c_['fn'] for c_ in calls_since(k0)]))
+                break
+            f = fr(dt) * fr(w)
+            b = brute_bins([fr(x) for x in data], dims, factors(case))
+            charge = [q + x * f + d * f for q, x, d in zip(charge, b, st['dark'])]
+            lines.append('C17 int %s %s %s' % (rat_list(data), rat(dt), rat(w)))
+        if op[0] in ('read', 'call'):
+            k0 = len(fake.calls)
+            try:
+                with patched_random(fake):
+                    im = det.read_out()
+            except Exception as e:  # noqa
+                bad.append(('readout-raises', 'read_out() with noise sources on raised %s: %s' % (type(e).__name__, str(e)[:100])))
+                break
+            cs = calls_since(k0)
+            seq = [c_['fn'] for c_ in cs]
+            wantseq = (['poisson'] if st['photon'] else []) + ['normal']
+            if seq != wantseq:
+                bad.append(('noise-call-order', 'read_out() with include_photon_noise=%r asked the generator for %r, expected %r' % (st['photon'], seq, wantseq)))
+                break
+            delta = [Fraction(0)] * npix
+            if st['photon']:
+                pc = cs[0]
+                if len(pc['lam']) != npix or any(abs(a - float(b)) > TOL * max(1.0, abs(float(b))) for a, b in zip(pc['lam'], charge)):
+                    bad.append(('photon-noise-expectation', 'the Poisson stage was handed %r; the accumulated charge (binned power*dt*w + dark*dt*w, before '
+                                'flat field and read noise) is %r' % (pc['lam'][:6], [float(x) for x in charge[:6]])))
+                    break
+                delta = [fr(x) for x in pc['d']]
+            nc = cs[-1]
+            sig = [float(x) for x in st['sigma']]
+            if nc['loc'] != [0.0] or nc['size'] != npix or (nc['scale'] != sig and not (len(set(sig)) == 1 and nc['scale'] == sig[:1])):
+                bad.append(('read-noise-draw', 'read noise must be one normal(0, read_noise, %d) draw; the generator was asked for loc=%r scale=%r size=%r'
+                            % (npix, nc['loc'], nc['scale'][:6], nc['size'])))
+                break
+            z = [fr(x) for x in nc['z']]
+            want = [(q + (dl if st['photon'] else 0)) * fl + sg * zz for q, dl, fl, sg, zz in zip(charge, delta, st['flat'], st['sigma'], z)]
+            arr = np.asarray(im, dtype=float)
+            gr = getattr(im, 'grid', None)
+            scale = max([1.0] + [abs(float(x)) for x in want])
+            if arr.shape != (npix,) or gr is None or not (gr is grid or gr == grid):
+                bad.append(('readout-grid', 'noisy read-out has shape %r / does not live on the detector grid' % (arr.shape,)))
+                break
+            if max([abs(float(a) - float(b)) for a, b in zip(arr, want)] + [0.0]) > TOL * scale:
+                bad.append(('noise-pipeline-value', 'read-out differs from ((charge + photon deviation) * flat_field + read_noise * z) by %g (photon noise %s)'
+                            % (max(abs(float(a) - float(b)) for a, b in zip(arr, want)), 'on' if st['photon'] else 'off')))
+                break
+            lines.append('C17 readrng %s %s' % ('[' + ','.join(rat(x) for x in delta) + ']', '[' + ','.join(rat(x) for x in z) + ']'))
+            checks.append((len(lines) - 1, [float(x) for x in arr], [float(x) for x in charge] if st['photon'] else None, want))
+            charge = [Fraction(0)] * npix
+        if bad:
+            break
+    return bad, lines, checks
+
+
+def rng_repro(case):
+    """same seed of the *real* global generator => bit-identical images (every noise source as the case says)"""
+    import hcipy
+    dims = case['dims']
+    grid = hcipy.make_uniform_grid(dims, [d * n for d, n in zip(case['delta'], dims)])
+    c = case['ctor']
+    runs = []
+    state = np.random.get_state()
+    try:
+        for _ in range(2):
+            np.random.seed(case['zseed'] % (2 ** 31))
+            det = hcipy.NoisyDetector(grid, dark_current_rate=param_value(c['dark_current_rate'], grid), read_noise=param_value(c['read_noise'], grid),
+                                      flat_field=param_value(c['flat_field'], grid), include_photon_noise=param_value(c['include_photon_noise'], grid),
+                                      subsampling=sub_arg(case))
+            imgs = []
+            for op in case['ops']:
+                if op[0] == 'set':
+                    setattr(det, op[1], param_value(op[2], grid))
+                if op[0] in ('int', 'call'):
+                    a = np.array(op[2], dtype=float)
+                    det.integrate(hcipy.Field(a, det.input_grid) if op[1] == 'field' else a, op[3], op[4])
+                if op[0] in ('read', 'call'):
+                    imgs.append(np.array(det.read_out(), dtype=float))
+            runs.append(imgs)
+    except Exception as e:  # noqa
+        return [('noisy-history-raises', 'a history on a NoisyDetector with noise sources on raised %s: %s' % (type(e).__name__, str(e)[:100]))]
+    finally:
+        np.random.set_state(state)
+    for k, (a, b) in enumerate(zip(*runs)):
+        if a.shape != b.shape or not np.array_equal(a, b, equal_nan=True):
+            return [('rng-not-reproducible', 'read-out %d differs between two runs of the same history after np.random.seed(%d)' % (k, case['zseed'] % (2 ** 31)))]
+    return []
+
+
+# ---------------------------------------------------------------------------------------------
+# exposures of different tensor shape in the life of one detector (family `polar`): a polarised (Jones-vector)
+# wavefront has a power of shape (2, N); its image is the tensor field of the two binned components, the noise-free
+# NoisyDetector must agree with the NoiselessDetector on it, and whatever is integrated *afterwards* (scalar light,
+# nothing at all) must be read out as if the detector were new.
+
+def gen_polar(rng, big):
+    ndim = 1 if rng.random() < 0.2 else 2
+    dims = [int(rng.integers(1, 4)) for _ in range(ndim)]
+    case = {'fam': 'polar', 'dims': dims, 'delta': [float(rng.choice([0.5, 1.0, 2.0])) for _ in range(ndim)],
+            'cls': str(rng.choice(['noiseless', 'noisy-off']))}
+    if rng.random() < 0.3:
+        case['ss'] = [int(rng.integers(1, 4)) for _ in range(ndim)]
+        case['spell'] = 'array'
+        case['s'] = max(case['ss'])
+    else:
+        case['s'] = int(rng.choice([1, 1, 2, 3]))
+    nin = int(np.prod([d * f for d, f in zip(dims, factors(case))]))
+    ops = []
+    for _ in range(int(rng.integers(2, 7))):
+        u = rng.random()
+        dt, w = dyadic(rng, 0.25, 4, 2), float(rng.choice([1.0, 0.5, 2.0, -1.0]))
+        if u < 0.25:
+            ops.append(['read'])
+        elif u < 0.6:
+            ops.append(['pol', [[[dyadic(rng, -2, 2, 2) for _ in range(nin)] for _ in range(2)] for _ in range(2)], dt, w])
+        else:
+            ops.append(['int', [dyadic(rng, 0, 16, 3) for _ in range(nin)], dt, w])
+    if not any(op[0] == 'pol' for op in ops):
+        ops.insert(0, ['pol', [[[dyadic(rng, -2, 2, 2) for _ in range(nin)] for _ in range(2)] for _ in range(2)], 1.0, 1.0])
+    ops += [['read'], ['read']]
+    case['ops'] = ops
+    return case
+
+
+def run_polar(case):
+    """returns (bad, model lines, comparisons [(index of the model's read line, real row)])"""
+    import hcipy
+    bad, lines, cmps = [], [], []
+    dims = case['dims']
+    npix = int(np.prod(dims))
+    grid = hcipy.make_uniform_grid(dims, [d * n for d, n in zip(case['delta'], dims)])
+    try:
+        if case['cls'] == 'noiseless':
+            det = hcipy.NoiselessDetector(grid, sub_arg(case))
+        else:
+            np.random.seed(12345)
+            det = hcipy.NoisyDetector(grid, dark_current_rate=0, read_noise=0, flat_field=0, include_photon_noise=False, subsampling=sub_arg(case))
+    except Exception as e:  # noqa
+        return [('constructor-raises', 'constructing the %s detector raised %s' % (case['cls'], type(e).__name__))], lines, cmps
+    rd = '[' + ','.join(str(d) for d in dims[::-1]) + ']'
+    # per tensor component one model detector: rows[c] = pending integrations (power row, dt, w); None = not part of the exposure
+    pending = []          # list of (rows (1 or 2 lists of floats), dt, w)
+    for k, op in enumerate(case['ops']):
+        if op[0] == 'read':
+            try:
+                im = det.read_out()
+            except Exception as e:  # noqa
+                key = 'tensor-power-readout-raises' if any(len(r) == 2 for r, _, _ in pending) else 'readout-raises'
+                bad.append((key, 'read_out() of a %s detector after %d integrations (%d of a polarised wavefront, power of shape (2, N)) raised %s: %s'
+                            % (case['cls'], len(pending), sum(1 for r, _, _ in pending if len(r) == 2), type(e).__name__, str(e)[:100])))
+                break
+            ncomp = 2 if any(len(r) == 2 for r, _, _ in pending) else 1
+            want = []
+            for c in range(ncomp):
+                acc = [Fraction(0)] * npix
+                for rows, dt, w in pending:
+                    row = rows[c] if len(rows) == 2 else rows[0]        # scalar light is broadcast over the components
+                    b = brute_bins([fr(x) for x in row], dims, factors(case))
+                    acc = [a + x * fr(dt) * fr(w) for a, x in zip(acc, b)]
+                want.append(acc)
+            arr = np.asarray(im, dtype=float)
+            gr = getattr(im, 'grid', None)
+            shape = (2, npix) if ncomp == 2 else (npix,)
+            if arr.shape != shape:
+                bad.append(('readout-shape-after-tensor-exposure' if ncomp == 1 else 'readout-shape',
+                            'read-out %d has shape %r, expected %r (%d pending integrations; polarised exposures earlier in the life of the detector: %d)'
+                            % (k, arr.shape, shape, len(pending), sum(1 for o in case['ops'][:k] if o[0] == 'pol'))))
+                break
+            if gr is None or not (gr is grid or gr == grid):
+                bad.append(('readout-grid', 'read-out %d does not live on the detector grid' % k))
+                break
+            got = arr.reshape(ncomp, npix)
+            scale = max([1.0] + [abs(float(x)) for r in want for x in r])
+            if max([abs(float(a) - float(b)) for rg, rw in zip(got, want) for a, b in zip(rg, rw)] + [0.0]) > TOL * scale:
+                bad.append(('readout-value', 'read-out %d (tensor components: %d) differs from the sum of power*dt*weight' % (k, ncomp)))
+                break
+            for c in range(ncomp):
+                lines.append('C17 new noiseless %s %s' % (model_sub(case), rd))
+                for rows, dt, w in pending:
+                    lines.append('C17 int %s %s %s' % (rat_list(rows[c] if len(rows) == 2 else rows[0]), rat(dt), rat(w)))
+                lines.append('C17 read')
+                cmps.append((len(lines) - 1, [float(x) for x in got[c]]))
+            pending = []
+        else:
+            try:
+                if op[0] == 'pol':
+                    e = hcipy.Field(np.array([np.array(op[1][0][0]) + 1j * np.array(op[1][0][1]), np.array(op[1][1][0]) + 1j * np.array(op[1][1][1])]), det.input_grid)
+                    wf = hcipy.Wavefront(e)
+                    p = np.array(wf.power, dtype=float)
+                    if p.shape != (2, det.input_grid.size):
+                        raise MachineryError('power of a Jones-vector wavefront has shape %r' % (p.shape,))
+                    det.integrate(wf, op[2], op[3])
+                    pending.append(([p[0].tolist(), p[1].tolist()], op[2], op[3]))
+                else:
+                    det.integrate(hcipy.Field(np.array(op[1], dtype=float), det.input_grid), op[2], op[3])
+                    pending.append(([list(op[1])], op[2], op[3]))
+            except MachineryError:
+                raise
+            except Exception as e:  # noqa
+                bad.append(('integrate-raises', 'integrate(%s) raised %s: %s' % ('polarised wavefront' if op[0] == 'pol' else 'scalar power', type(e).__name__, str(e)[:100])))
+                break
+    return bad, lines, cmps
+
+
 def all_bad(obs):
     return [b for o in obs for b in o['bad']]
 
@@ -771,7 +1187,7 @@ def check_case(ctx, case, lines, index):
     empty = sum(1 for o in obs if 'got' in o and o.get('pending', 0) == 0)
     ctx.count('kind:' + case['kind'])
     ctx.count('ndim:%d' % len(case['dims']))
-    ctx.count('subsampling:%d' % case['s'])
+    ctx.count('subsampling:%s' % ('per-axis:' + case['spell'] + (':different' if len(set(case['ss'])) > 1 else ':equal') if 'ss' in case else case['s']))
     ctx.count('detector-grid:' + ('separated-non-regular' if 'axes' in case else 'regular'))
     ctx.count('style:' + case['style'])
     ctx.count('readouts', nread)
@@ -794,12 +1210,47 @@ def check_case(ctx, case, lines, index):
             ctx.count('caller-' + op[0])
         if op[0] == 'bad':
             ctx.count('wrong-size-input:' + op[1])
-    sig = (case['kind'], tuple(case['dims']), case['s'], nread, nint, multi > 0, empty > 0)
+    sig = (case['kind'], tuple(case['dims']), tuple(factors(case)), nread, nint, multi > 0, empty > 0)
     ctx.case({'kind': case['kind'], 'dims': case['dims'], 's': case['s'], 'ops': [op[0] for op in case['ops']]} if nread > 1 else None,
              nontrivial_key=sig if nread >= 1 else None)
     base = len(lines)
     lines += model
-    index.append((case, obs, base))
+    index.append((case, obs, base, len(model)))
+
+
+def parse_lists(resp):
+    if not resp.startswith('ok '):
+        return None
+    body = resp[3:]
+    return [] if body == '-' else [parse_rat_list(c) for c in body.split(';')]
+
+
+def close_lists(m, got):
+    return len(m) == len(got) and all(abs(float(a) - b) <= TOL * max([1.0] + [abs(float(x)) for x in m]) for a, b in zip(m, got))
+
+
+def compare_history(ctx, out, case, obs, base, nlines):
+    """ops `imgs` / `twin`, the last lines of the case"""
+    if any(o['bad'] for o in obs):
+        return
+    reads = [o for o in obs if 'got' in o]
+    noisy = case['kind'] != 'noiseless'
+    resp = out[base + nlines - (2 if noisy else 1)]
+    m = parse_lists(resp)
+    want = [o['got'] for o in reads if not o.get('random')]
+    ctx.traces_validated += 1
+    if m is None or len(m) != len(want) or not all(close_lists(a, b) for a, b in zip(m, want)):
+        ctx.disagree('C17 imgs', {'case': case, 'model': resp, 'impl': want})
+        return
+    if noisy:
+        resp = out[base + nlines - 1]
+        m = parse_lists(resp)
+        ctx.traces_validated += 1
+        # the model's noiseless detector on the history without the setters, against the real NoisyDetector wherever every
+        # noise source was off for the whole exposure
+        if m is None or len(m) != len(reads) or not all(close_lists(a, o['got']) for a, o in zip(m, reads) if o.get('off') and not o.get('random')):
+            ctx.disagree('C17 twin', {'case': case, 'model': resp, 'impl': [o['got'] for o in reads]})
+        ctx.count('twin-readouts-compared', sum(1 for o in reads if o.get('off') and not o.get('random')))
 
 
 def compare_model(ctx, out, case, obs, base):
@@ -913,9 +1364,75 @@ def run(ctx):
         if not bad:
             pa.append((case, len(lines), cmps))
             lines += plines
+    rg = []
+    for k in range(ctx.scale(300, 4000)):
+        case = gen_rng_case(ctx.rng, big=(ctx.tier == 'thorough' and k % 4 == 0))
+        bad, rlines, checks = run_rng_case(case)
+        if not bad:
+            bad = rng_repro(case)
+        for key, what in bad:
+            ctx.violation(key, what, case)
+        nr = sum(1 for op in case['ops'] if op[0] in ('read', 'call'))
+        ctx.count('rng:cases')
+        ctx.count('rng:readouts', nr)
+        ctx.count('rng:readouts-photon-noise-on', sum(1 for c_ in checks if c_[2] is not None))
+        ctx.count('rng:subsampling:' + ('per-axis' if 'ss' in case else str(case['s'])))
+        for prm in PARAMS:
+            ctx.count('rng:ctor:%s:%s' % (prm, case['ctor'][prm][0] + ('-off' if is_off(prm, case['ctor'][prm]) else '-on')))
+        ctx.count('rng:setters', sum(1 for op in case['ops'] if op[0] == 'set'))
+        ctx.case(None, nontrivial_key=('rng', tuple(case['dims']), tuple(factors(case)), nr, tuple(is_off(p_, case['ctor'][p_]) for p_ in PARAMS)))
+        if not bad:
+            rg.append((case, len(lines), checks))
+            lines += rlines
+    pol = []
+    for k in range(ctx.scale(150, 2000)):
+        case = gen_polar(ctx.rng, big=False)
+        bad, plines, cmps = run_polar(case)
+        for key, what in bad:
+            ctx.violation(key, what, case)
+        ctx.count('polar:' + case['cls'])
+        ctx.count('polar:subsampling:' + ('per-axis' if 'ss' in case else str(case['s'])))
+        ctx.count('polar:polarised-exposures', sum(1 for op in case['ops'] if op[0] == 'pol'))
+        ctx.count('polar:scalar-exposures-after-a-polarised-one', sum(1 for i, op in enumerate(case['ops']) if op[0] == 'int' and any(o[0] == 'pol' for o in case['ops'][:i])))
+        ctx.case(None, nontrivial_key=('polar', tuple(case['dims']), tuple(factors(case)), case['cls'], tuple(op[0] for op in case['ops'])))
+        if not bad:
+            pol.append((case, len(lines), cmps))
+            lines += plines
     out = ctx.model(lines)
-    for case, obs, base in index:
+    for case, base, cmps in pol:
+        for idx, got in cmps:
+            ctx.traces_validated += 1
+            resp = out[base + idx]
+            m = parse_rat_list(resp[3:]) if resp.startswith('ok [') else None
+            if m is None or not close_lists(m, got):
+                ctx.disagree('C17 polar component', {'case': case, 'model': resp, 'impl': got})
+                break
+    for case, base, checks in rg:
+        for idx, img, lam, want in checks:
+            ctx.traces_validated += 1
+            resp = out[base + idx].split(' ')
+            good = len(resp) == 4 and resp[0] == 'ok'
+            if good and resp[3] != '-':
+                # the closed form of the accumulated charge (spec side of `noisy_charge_is_sum_plus_dark`) against what the real
+                # code handed to its Poisson stage
+                ctx.count('rng:closed-form-charge-compared' + ('' if lam is not None else ':photon-off(skipped)'))
+                if lam is not None:
+                    sp = parse_rat_list(resp[3])
+                    good = len(sp) == len(lam) and all(abs(float(a) - b) <= TOL * max(1.0, abs(float(a))) for a, b in zip(sp, lam))
+            if good:
+                m = parse_rat_list(resp[1])
+                good = m == want and len(m) == len(img) and all(abs(float(a) - b) <= TOL * max(1.0, abs(float(a))) for a, b in zip(m, img))
+                if good and (lam is None) != (resp[2] == '-'):
+                    good = False
+                if good and lam is not None:
+                    ml = parse_rat_list(resp[2])
+                    good = len(ml) == len(lam) and all(abs(float(a) - b) <= TOL * max(1.0, abs(float(a))) for a, b in zip(ml, lam))
+            if not good:
+                ctx.disagree('C17 readrng', {'case': case, 'model': out[base + idx], 'impl': img, 'lam': lam})
+                break
+    for case, obs, base, nlines in index:
         compare_model(ctx, out, case, obs, base)
+        compare_history(ctx, out, case, obs, base, nlines)
     for case, base, cmps in pa:
         # the images of single integrations (dt = weight = 1) against the per-axis binning model `binNDs` (C18 op `bins`)
         for k, got in enumerate(cmps):
@@ -928,6 +1445,16 @@ def run(ctx):
 
 
 def replay(ctx, case):
+    if case.get('fam') == 'polar':
+        bad = run_polar(case)[0]
+        for key, what in bad:
+            print('  fails:', key, '-', what)
+        return not bad
+    if case.get('fam') == 'rng':
+        bad = run_rng_case(case)[0] or rng_repro(case)
+        for key, what in bad:
+            print('  fails:', key, '-', what)
+        return not bad
     if case.get('fam') == 'per-axis':
         bad = run_per_axis(case)[0]
         for key, what in bad:
